@@ -158,7 +158,7 @@ fn case(v: &RV, o: &Opts) -> J {
 fn check_case(mode: Mode, rv: &RV, real: &Value, o: &Opts, t: &mut Tally) {
     t.evals += 1;
     let ro = bridge::to_options(o);
-    let printed = match explore::guard(|| real.print_with(ro).to_string()) {
+    let printed = match explore::guard(|| real.print_with(ro.clone()).to_string()) {
         Ok(s) => s,
         Err(p) => {
             t.violation("", format!("printing panicked: {p}"), case(rv, o));
@@ -172,6 +172,7 @@ fn check_case(mode: Mode, rv: &RV, real: &Value, o: &Opts, t: &mut Tally) {
             if printed != want {
                 t.violation("", format!("layout differs from the documented one: printed {printed:?}, reference {want:?}"), case(rv, o));
             }
+            other_print_routes(rv, real, o, &ro, &printed, t);
         }
         Mode::C04 => {
             match Value::parse_str(&printed) {
@@ -183,8 +184,72 @@ fn check_case(mode: Mode, rv: &RV, real: &Value, o: &Opts, t: &mut Tally) {
                 }
                 Err(e) => t.violation("", format!("printed text {printed:?} is not valid JSON: {e}"), case(rv, o)),
             }
+            // the conversions that print without an option record (compact): Display, to_string,
+            // String::from(value) - once per value, when the record is the compact preset
+            if *o == Opts::compact() {
+                for (name, text) in [("to_string()", explore::guard(|| real.to_string())), ("String::from(value)", explore::guard(|| String::from(real.clone()))), ("format!(\"{}\")", explore::guard(|| format!("{real}")))] {
+                    t.evals += 1;
+                    match text {
+                        Ok(text) => match Value::parse_str(&text) {
+                            Ok((back, _)) if back == *real => {}
+                            Ok((back, _)) => t.violation("", format!("{name} gives {text:?}, which parses back to a different value {back}"), case(rv, o)),
+                            Err(e) => t.violation("", format!("{name} gives {text:?}, which is not valid JSON: {e}"), case(rv, o)),
+                        },
+                        Err(p) => t.violation("", format!("{name} panicked: {p}"), case(rv, o)),
+                    }
+                }
+            }
         }
         Mode::C08 => unreachable!(),
+    }
+}
+
+/// `Print::fmt_with` called directly with a base indentation level.
+struct At<'a>(&'a Value, &'a json_syntax::print::Options, usize);
+impl std::fmt::Display for At<'_> {
+    fn fmt(&self, f: &mut std::fmt::Formatter) -> std::fmt::Result {
+        self.0.fmt_with(f, self.1, self.2)
+    }
+}
+
+/// The other public routes to the printer must lay the value out in the same way: through a
+/// reference, through locspan's `Meta` / `Stripped` wrappers, and through `Print::fmt_with`
+/// with a base indentation level k (every child line is then indented by (k + depth) units:
+/// the text printed at level 0 with k more units after every line break; strings cannot contain
+/// a raw line break).
+fn other_print_routes(rv: &RV, real: &Value, o: &Opts, ro: &json_syntax::print::Options, printed: &str, t: &mut Tally) {
+    let r = explore::guard(|| {
+        let mut bad: Vec<String> = Vec::new();
+        let by_ref = (&real).print_with(ro.clone()).to_string();
+        if by_ref != printed {
+            bad.push(format!("<&Value as Print>::print_with gives {by_ref:?}, Value gives {printed:?}"));
+        }
+        let meta = locspan::Meta(real, 7u8);
+        let by_meta = meta.print_with(ro.clone()).to_string();
+        if by_meta != printed {
+            bad.push(format!("<Meta<Value, _> as Print>::print_with gives {by_meta:?}, Value gives {printed:?}"));
+        }
+        let by_stripped = locspan::Stripped(meta).print_with(ro.clone()).to_string();
+        if by_stripped != printed {
+            bad.push(format!("<Stripped<Meta<Value, _>> as Print>::print_with gives {by_stripped:?}, Value gives {printed:?}"));
+        }
+        let unit = rp::indent_unit(o);
+        for k in 1..=2usize {
+            let got = At(real, ro, k).to_string();
+            let want = printed.replace('\n', &format!("\n{}", unit.repeat(k)));
+            if got != want {
+                bad.push(format!("fmt_with at base level {k} gives {got:?}, expected {want:?}"));
+            }
+        }
+        bad
+    });
+    match r {
+        Ok(bad) => {
+            for b in bad {
+                t.violation("", b, case(rv, o));
+            }
+        }
+        Err(p) => t.violation("", format!("printing through another route panicked: {p}"), case(rv, o)),
     }
 }
 
